@@ -57,6 +57,11 @@ func (g *Genesis) scale(i int) int64 {
 			return 1000
 		}
 	}
+	for _, k := range g.Quad {
+		if k == i {
+			return 4
+		}
+	}
 	return 1
 }
 
